@@ -646,8 +646,8 @@ def _worker_shape(fn, qname):
         raise ExtractError(f"{fn.name}: expected one `while True` loop")
     body = loops[0].body
     tries = [i for i, s in enumerate(body) if isinstance(s, ast.Try)]
-    if len(tries) != 1:
-        raise ExtractError(f"{fn.name}: expected one try block in the loop")
+    if len(tries) not in (1, 2):
+        raise ExtractError(f"{fn.name}: expected the polling try block (and at most the error-reporting one) in the loop")
     ti = tries[0]
     tr = body[ti]
     if f"{qname}.get(True, timeout=" not in ast.unparse(ast.Module(body=tr.body, type_ignores=[])):
@@ -687,14 +687,26 @@ def gen_stage():
             if f"{qname}.put(" in ast.unparse(s):
                 iput = i
         istart = _stmt_index(stmts, lambda t: t.startswith("for _ in range(parallel):") and "w.start()" in t and "workers.append(w)" in t)
-        order_ok = None not in (ic, ij, is_, iw, iput, istart) and istart < iput < ic < ij < is_ < iw and iw == len(stmts) - 1
+        tail_src = [ast.unparse(x) for x in stmts[iw + 1:]] if iw is not None else None
+        reports = tail_src == ["from .par_util import raise_if_worker_failed", "raise_if_worker_failed(error_event)"]
+        order_ok = None not in (ic, ij, is_, iw, iput, istart) and istart < iput < ic < ij < is_ < iw and (iw == len(stmts) - 1 or reports)
+        # the worker: the per-item work is wrapped in `try: … except Exception: … error_event.set()` and the loop goes on
+        wloop = [n for n in w.body if isinstance(n, ast.While)][0]
+        after_get = wloop.body[[i for i, x in enumerate(wloop.body) if isinstance(x, ast.Try)][0] + 1:]
+        wraps = (len(after_get) == 1 and isinstance(after_get[0], ast.Try) and len(after_get[0].handlers) == 1
+                 and ast.unparse(after_get[0].handlers[0].type) == "Exception"
+                 and ast.unparse(after_get[0].handlers[0].body[-1]) == "error_event.set()"
+                 and not any(isinstance(n, (ast.Break, ast.Return, ast.Raise)) for n in ast.walk(after_get[0].handlers[0])))
+        ev_created = any(ast.unparse(x) == "error_event = mp.Event()" for x in stmts)
         nput = sum(ast.unparse(s).count(f"{qname}.put(") for s in stmts)
         shape = _worker_shape(w, qname)
         shapes[short] = shape
         out += f"/-- {path}:{prod} — workers started, every item `put`, then `close(); join_thread(); done_event.set()`, then all workers joined, and nothing after -/\n"
         out += f"def {short}_producer_order_ok : Bool := {'true' if order_ok and nput == 1 else 'false'}\n"
         out += f"def {short}_capacity_per_worker : Nat := {m.group(1)}\n"
-        out += f"/-- {work}: where the shutdown flag is read relative to the queue poll -/\ndef {short}_flag_first : Bool := {'true' if shape == 'flag-first' else 'false'}\n\n"
+        out += f"/-- {work}: where the shutdown flag is read relative to the queue poll -/\ndef {short}_flag_first : Bool := {'true' if shape == 'flag-first' else 'false'}\n"
+        out += (f"/-- {work} catches an exception from the per-item work, sets the shared error event and continues its loop;\n{prod} raises after joining the workers when the event is set -/\n"
+                f"def {short}_reports_errors : Bool := {'true' if (wraps and reports and ev_created) else 'false'}\n\n")
     allff = all(v == "flag-first" for v in shapes.values())
     out += f"/-- all four hand-off workers read the flag *before* polling the queue and act on that reading when the poll comes back empty -/\ndef flag_first : Bool := {'true' if allff else 'false'}\n"
     out += "\nend Stage\nend Gen\n"
@@ -702,3 +714,41 @@ def gen_stage():
 
 
 MODULES["Stage"] = gen_stage
+
+
+# ------------------------------------------------------------------ walk worker / error reporting (C01, C19)
+def gen_walkworker():
+    tree = parse("toasty/pyramid.py")
+    out = HEADER.format(src="toasty/pyramid.py") + "namespace Gen\nnamespace WalkWorker\n\n"
+    w = find_def(tree, "_mp_walk_worker")
+    loops = [n for n in w.body if isinstance(n, ast.While) and ast.unparse(n.test) == "True"]
+    if len(loops) != 1:
+        raise ExtractError("_mp_walk_worker: expected one `while True` loop")
+    body = loops[0].body
+    tr = body[0]
+    shape_ok = (isinstance(tr, ast.Try) and ast.unparse(tr.body[0]) == "pos = ready_queue.get(True, timeout=1)" and len(tr.handlers) == 1
+                and ast.unparse(tr.handlers[0].type) == "Empty"
+                and [ast.unparse(x) for x in tr.handlers[0].body] == ["if done_event.is_set():\n    break", "continue"])
+    rest = body[1:]
+    rest_src = [ast.unparse(x) for x in rest]
+    plain = rest_src == ["callback(pos)", "done_queue.put(pos)"]
+    wrapped = (len(rest) == 2 and isinstance(rest[0], ast.Try) and [ast.unparse(x) for x in rest[0].body] == ["callback(pos)"]
+               and len(rest[0].handlers) == 1 and ast.unparse(rest[0].handlers[0].type) == "Exception"
+               and ast.unparse(rest[0].handlers[0].body[-1]) == "error_event.set()" and rest_src[1] == "done_queue.put(pos)")
+    out += ("/-- `_mp_walk_worker`: poll the ready queue (1 s); on Empty leave iff the done flag is set, else poll again;\n"
+            "on an item: run the callback exactly once, then report the tile on the done queue, then loop -/\n"
+            f"def loop_shape_ok : Bool := {'true' if shape_ok and (plain or wrapped) else 'false'}\n")
+    wp = find_def(tree, "Pyramid._walk_parallel")
+    tail = [ast.unparse(x) for x in wp.body[-3:]]
+    parent_raises = tail[-2:] == ["from .par_util import raise_if_worker_failed", "raise_if_worker_failed(error_event)"]
+    out += ("/-- a failing callback is caught in the worker, recorded in the shared error event, the tile is still reported;\n"
+            "`_walk_parallel` raises after joining the workers when the event is set -/\n"
+            f"def reports_errors : Bool := {'true' if wrapped and parent_raises else 'false'}\n")
+    pu = parse("toasty/par_util.py")
+    rf = ast.unparse(find_def(pu, "raise_if_worker_failed"))
+    out += f"def raise_helper_raises_when_set : Bool := {'true' if 'if error_event.is_set():' in rf and 'raise RuntimeError(' in rf else 'false'}\n"
+    out += "\nend WalkWorker\nend Gen\n"
+    return out
+
+
+MODULES["WalkWorker"] = gen_walkworker
